@@ -404,6 +404,17 @@ def worlds(draw, ninst=3, hostile_names=True, split_paths=False, foreign_ids=Fal
         classes.append("embedded-id-spells-a-document-url")
         v1, v2 = draw(inst_scalar), draw(inst_scalar)
         foreign_instances = list(foreign_instances) + [{"e1": v1}, {"e2": {"z": v1}}, {"e1": v2, "e2": {"z": v2}}]
+    if foreign_ids and not exotic and draw(st.integers(0, 3)) == 0 and isinstance(root.get("properties", {}), dict):
+        # a property whose reference can never be resolved (every call that reaches it ends in RefResolutionError, at
+        # whatever point of whatever entry point) next to one that fails with per-branch context: what a call that
+        # died half-way leaves behind must not colour the next one (again for self-comparison only)
+        props = root.setdefault("properties", {})
+        props["mr"] = {"$ref": "http://ex.test/absent-document.json#/definitions/a"}
+        props["ao"] = {"anyOf" if d >= 4 else "type": [{"type": "null"}, {"minimum": 5, "type": "number"}]}
+        if d >= 4:
+            props["oo"] = {"oneOf": [{"type": "integer"}, {"minimum": 0}, {"maximum": 10}]}
+        classes.append("dies-half-way")
+        foreign_instances = list(foreign_instances) + [{"mr": 1}, {"ao": "s", "oo": 3}, {"ao": 1, "mr": 2}, {"oo": 3.5, "ao": None}]
     if draw(st.integers(0, 7)) == 0:
         # the OTHER draft family's id keyword is an unknown keyword here: it must not change any base URI
         other = "$id" if idkw == "id" else "id"
